@@ -6,6 +6,7 @@ package main
 // own run.
 
 import (
+	"encoding/binary"
 	"fmt"
 	"runtime/metrics"
 	"strings"
@@ -209,6 +210,57 @@ func roMalformations(mode int, ss []seed, bound int) mc.Harness {
 		x.Trivial = len(what) == 0
 		x.Note("seed", s.name)
 		x.Note("malformation", fmt.Sprint(what))
+	}
+}
+
+// box headers at the edge of the reader's buffer: a free box in front of moov shifts every later box so that
+// the header of box number bi (in 32- or 64-bit form) starts at every distance -24..+4 from a multiple of 4096
+func roBoxEdges(mode int) mc.Harness {
+	mk := func() ([]*gen.Box, []*gen.Box) {
+		top := gen.CR3(gen.CR3FromRecord(richRecord(), gen.CanonicalLayout(), binary.LittleEndian), 0)
+		var all []*gen.Box
+		gen.Walk(top, func(b *gen.Box, d int) { all = append(all, b) })
+		return top, all
+	}
+	_, all0 := mk()
+	nBoxes := len(all0)
+	var eps []int
+	for i := range entryPoints {
+		if entryPoints[i].accepts("cr3") {
+			eps = append(eps, i)
+		}
+	}
+	return func(x *mc.Exec) {
+		bi := 2 + x.All("box", nBoxes-2) // boxes behind ftyp and moov's own header
+		large := x.All("64-bit-form", 2) == 1
+		win := 1 + x.All("window", 2)
+		sigs := map[string]bool{}
+		var n int64
+		for d := -24; d <= 4; d++ {
+			top, all := mk()
+			all[bi].Large = large
+			gen.EncodeBoxes(top)
+			pad := win*4096 + d - all[bi].Start - 8
+			if pad < 0 {
+				continue
+			}
+			top2, all2 := mk()
+			all2[bi].Large = large
+			top2 = append(top2[:1], append([]*gen.Box{{Type: "free", Payload: &gen.Doc{B: make([]byte, pad)}}}, top2[1:]...)...)
+			doc := gen.EncodeBoxes(top2)
+			for _, ei := range eps {
+				e := &entryPoints[ei]
+				pristine()
+				res := runEntry(e, envio.New(doc.B), mode == oracleAlloc)
+				n++
+				if kind, desc := roJudge(mode, e, res, len(doc.B)); kind != "" {
+					roFail(x, sigs, mode, e, kind, desc, fmt.Sprintf("CR3 with the header of box %s (64-bit form: %v) at offset %d", all2[bi].Type, large, all2[bi].Start), doc.B, res)
+				}
+			}
+		}
+		x.Bulk = n - 1
+		x.InputID = hashBytes([]byte(fmt.Sprint("edge", bi, large, win)))
+		x.Outcome = all0[bi].Type
 	}
 }
 
@@ -441,6 +493,8 @@ func roSpaces(mode int, tier string) []mc.Space {
 		Rule: "for every supported Exif field alone in a record, in both byte orders: value shapes its parser does not expect (count 0; strings/dates of 0, 1 and 3 characters with and without NUL; a rational as two SHORTs / one LONG / no value; BYTE x4) x every accepting entry point"})
 	sp = append(sp, mc.Space{Name: "shared-value-bytes", H: roSeedsPlain(mode, amplificationSeeds()), NoLevels: true, Isolate: true,
 		Rule: "TIFF blocks whose 40-83 string fields name overlapping or identical value bytes (steps 0, 1, 64, 100; counts 1000-4096), alone and repeated as 24 and 64 Exif segments of one JPEG in alternating byte orders x every accepting entry point: the work and memory of a decode must follow the file's length, not the number of names for the same bytes"})
+	sp = append(sp, mc.Space{Name: "box-headers-at-buffer-edges", H: roBoxEdges(mode), NoLevels: true, Isolate: true,
+		Rule: "the CR3 tree with a free box in front of moov sized so that the header of each later box, in 32- and in 64-bit form, starts at every distance -24..+4 from offsets 4096 and 8192 (the reader's buffer size): every CR3 entry point"})
 	sp = append(sp, mc.Space{Name: "jpeg-marker-structures", H: roSeedsPlain(mode, jpegStructureSeeds()), NoLevels: true, Isolate: true,
 		Rule: "JPEG streams of up to 3 tokens over {bare SOI, bare EOI, Exif, XMP, COM} after the SOI, and the stand-alone markers TEM / RST0 / RST7 (no length field) before or after one token followed by another, then the image: every JPEG entry point"})
 	sp = append(sp, mc.Space{Name: "length-and-count-pairs", H: roLengthAndCount(mode, gs), NoLevels: true, Isolate: true,
